@@ -89,7 +89,8 @@ TTrackEnd == /\ IsEvent("TrackEnd") /\ Same
 \* C16
 TGvParse == /\ IsEvent("GvParse") /\ Same
             /\ LET p == GvParse(E.in) IN
-               IF p.ok THEN /\ E.res = "ok" /\ E.minor = p.minor /\ E.patch = p.patch /\ (E.finite => E.reparse_eq)
+               IF p.ok /\ p.patch = -2 THEN E.res \in {"ok", "err"} /\ (E.res = "ok" => (E.minor = p.minor /\ (E.finite => E.reparse_eq)))
+               ELSE IF p.ok THEN /\ E.res = "ok" /\ E.minor = p.minor /\ E.patch = p.patch /\ (E.finite => E.reparse_eq)
                ELSE E.res = "err"
 TGvCmp == /\ IsEvent("GvCmp") /\ Same
           /\ E.res = GvCmp(E.a, E.b) /\ E.eq = GvEq(E.a, E.b) /\ E.rev = -GvCmp(E.a, E.b)
